@@ -32,6 +32,41 @@ if [ ! -f "$B/.instrumented" ]; then
   fi
   ( cd "$B/src" && "$CACHE/simgen" -dir . -sites "$B/sites.json" ) > "$B/simgen.log" 2>&1 || { cat "$B/simgen.log" >&2; fail "simgen failed"; }
   ( cd "$B/src" && go build ./... ) > "$B/vet.log" 2>&1 || { cat "$B/vet.log" >&2; fail "instrumented copy does not build"; }
+  # Translation validation of the rewrite: with simrt in pass-through mode the repository's own tests must
+  # give the same pass set inside the instrumented copy as BASELINE.json records (if a test of the stable set
+  # fails here it must fail identically on the un-instrumented working tree, else the rewrite is unfaithful).
+  if [ "${SIM_SKIP_FAITHFULNESS:-0}" != 1 ]; then
+    ( cd "$B/src" && go test -json -vet=off -count=1 -timeout 20m ./... > "$B/faith.json" 2>/dev/null )
+    python3 - "$B/faith.json" "$REPO" > "$B/faith.log" 2>&1 <<'PY' || { cat "$B/faith.log" >&2; fail "instrumentation is not faithful (see above)"; }
+import json,sys,subprocess,os
+def passed(path):
+    ok=set(); bad=set()
+    for l in open(path):
+        try: e=json.loads(l)
+        except Exception: continue
+        if e.get('Test'):
+            k=e['Package']+'::'+e['Test']
+            if e.get('Action')=='pass': ok.add(k)
+            elif e.get('Action')=='fail': bad.add(k)
+    return ok,bad
+base=set(json.load(open('/root/.vp/BASELINE.json'))['stable_pass'])
+ok,bad=passed(sys.argv[1])
+missing=sorted(base-ok)
+print(f"faithfulness: {len(base&ok)}/{len(base)} baseline tests pass in the instrumented copy")
+if missing:
+    env=dict(os.environ)
+    out=subprocess.run(['go','test','-json','-vet=off','-count=1','-timeout','20m','./...'],cwd=sys.argv[2],capture_output=True,text=True,env=env).stdout
+    open(sys.argv[1]+'.plain','w').write(out)
+    ok2,_=passed(sys.argv[1]+'.plain')
+    only=[m for m in missing if m in ok2]
+    if only:
+        print("tests passing on the working tree but failing in the instrumented copy:")
+        for m in only[:20]: print("  ",m)
+        sys.exit(1)
+    print(f"note: {len(missing)} baseline tests fail on the working tree itself (not an instrumentation problem)")
+PY
+    cat "$B/faith.log"
+  fi
   # harness module file pointing at this copy
   sed "s#=> .*#=> $B/src#" "$VERIF/sim/go.mod" > "$B/harness.mod"
   cp "$REPO/go.sum" "$B/harness.sum"
